@@ -759,6 +759,16 @@ CORPUS = [
      [(1, 'imp:n=1.0+0'), (2, 'imp:n=0.0+0'), (3, 'imp:n 0d0 imp:p=5-1'),
       (4, 'IMP:N=0-3 imp:p 0.D+2'), (5, ('like', 1), 'imp:n=0d0')], [],
      [2, 4, 5]),
+    # the first entry of the data card is not a plain integer (datacard.split cuts
+    # the card after its leading digits; get_cell_importances glues them back)
+    ('first-entry-decimal', [(1, ''), (2, ''), (3, ''), (4, '')],
+     ['imp:n 1.0 1 1 0'], [4]),
+    ('first-entry-decimal-shorthand', [(1, ''), (2, ''), (3, ''), (4, ''), (5, '')],
+     ['imp:n 2.5 3r 0'], [5]),
+    ('first-entry-dot-and-exponent', [(1, ''), (2, ''), (3, ''), (4, '')],
+     ['imp:n 1. 0 1 0.', 'imp:p 1e0 0 0 0'], [2, 4]),
+    ('first-entry-interpolated', [(1, ''), (2, ''), (3, ''), (4, ''), (5, '')],
+     ['imp:n 0.5 2i 2 0'], [5]),
     ('position-not-id', [(30, ''), (10, ''), (20, '')], ['imp:n 0 1 1'], [30]),
     ('continuation-of-data-card', [(1, ''), (2, ''), (3, ''), (4, '')],
      ['imp:n 1', '      0 1', '      0'], [2, 4]),
@@ -924,6 +934,88 @@ def exhaustive_expand():
         for k in (1, 2, 3):
             for tail in itertools.product(EXHAUSTIVE_TOKENS, repeat=k):
                 yield k, [first] + list(tail)
+
+
+def trcl_complement_decks(res):
+    '''A zero-importance cell that carries a TRCL (inline, by TR number, through
+    LIKE n BUT TRCL=) and is complemented (#n) by a written cell: the region
+    left out must be the MOVED cell - its points lie in no written volume, the
+    points of the place it was moved away from belong to the written cell.'''
+    import t4eval
+    k = 0
+    for shift in (2.0, -3.0, 2.5):
+        for form in ('inline', 'tr', 'like', 'star'):
+            for zero_from in ('cell', 'data'):
+                for zero in (True, False):
+                    k += 1
+                    imp = '0' if zero else '1'
+                    kw = (lambda v: f' imp:n={v}') if zero_from == 'cell' \
+                        else (lambda v: '')
+                    tr_card = []
+                    if form == 'inline':
+                        moved = [f'3 0 -7 trcl=({shift} 0 0){kw(imp)}']
+                    elif form == 'star':
+                        moved = [f'3 0 -7 *trcl=({shift} 0 0 0 90 90 90 0 90 90 90 0)'
+                                 f'{kw(imp)}']
+                    elif form == 'tr':
+                        moved = [f'3 0 -7 trcl=4{kw(imp)}']
+                        tr_card = [f'tr4 {shift} 0 0']
+                    else:
+                        moved = [f'5 0 -7 u=9{kw("1")}',
+                                 f'3 like 5 but u=0 trcl=({shift} 0 0){kw(imp)}']
+                    n_imp = len(moved) + 2
+                    lines = ['C12 trcl/complement deck',
+                             f'1 0 #3 -8{kw("1")}', f'2 0 8{kw("1")}'] + moved
+                    lines += ['', '7 so 1', '8 so 10', '']
+                    if zero_from == 'data':
+                        vals = ['1', '1'] + (['1'] if form == 'like' else []) + [imp]
+                        lines.append('imp:n ' + ' '.join(vals))
+                    lines += tr_card + ['nps 1']
+                    text = '\n'.join(lines) + '\n'
+                    res.seen(('trcl-complement', text), nontrivial=True)
+                    res.count('trcl-complement:' + ('zero' if zero else 'live'))
+                    conv = impl.convert(text)
+                    if not conv.ok or conv.text is None:
+                        res.violation('impl-violation',
+                                      f'trcl/complement deck rejected: {conv.exc}: '
+                                      f'{conv.msg[:150]}', {'input': {'deck': text}},
+                                      found_input=True)
+                        continue
+                    t4 = impl.T4File(conv.text)
+                    note = g.note_list(conv.stdout)
+                    if (3 in note) != zero:
+                        res.violation('impl-violation',
+                                      f'cell 3 (zero importance: {zero}) listed in '
+                                      f'the NOTE: {3 in note}',
+                                      {'input': {'deck': text}}, found_input=True)
+                    ev = t4eval.Evaluator(t4)
+                    moved_pt = (shift + 0.1, 0.2, -0.3)     # inside the moved cell 3
+                    origin_pt = (0.1, -0.2, 0.3)            # where it was before
+                    try:
+                        own_moved = ev.owners(moved_pt)
+                        own_origin = ev.owners(origin_pt)
+                    except t4eval.T4EvalError as exc:
+                        res.violation('impl-violation', 'cannot evaluate the written '
+                                      f'file: {exc}', {'input': {'deck': text}},
+                                      found_input=True)
+                        continue
+                    if zero and own_moved:
+                        res.violation('impl-violation',
+                                      f'cell 3 has importance 0 and is moved by TRCL; its '
+                                      f'point {moved_pt} lies in written volume(s) '
+                                      f'{own_moved}', {'input': {'deck': text}},
+                                      found_input=True)
+                    if not zero and not own_moved:
+                        res.violation('impl-violation',
+                                      f'cell 3 (importance 1, moved by TRCL): its point '
+                                      f'{moved_pt} lies in no written volume',
+                                      {'input': {'deck': text}}, found_input=True)
+                    if not own_origin:
+                        res.violation('impl-violation',
+                                      f'cell 1 = #3 -8 has non-zero importance but its '
+                                      f'point {origin_pt} (outside the moved cell 3) lies '
+                                      'in no written volume',
+                                      {'input': {'deck': text}}, found_input=True)
 
 
 ALL_ZERO = '''all cells of zero importance
@@ -1156,6 +1248,7 @@ def run(res, tier, seed, proofs_ok):
         mark('corpus')
         exhaustive_decks(res, quick)
         exhaustive_cards(res)
+        trcl_complement_decks(res)
         mark('exhaustive decks')
         expand_ties(res, rng, 240 if quick else 3000, 160 if quick else 2000,
                     2 if quick else 3)
